@@ -234,6 +234,17 @@ def run_ctor(ctx, lines, expect):
                                     if not share and r[1].extended_properties is props:
                                         ctx.violation(what="copy_extended_properties=True shared the dictionary", cls=cls,
                                                       observed="shared", required="copied")
+                                    # ... and not only the wrapper object: the storage behind it
+                                    props["probe_from_caller"] = "c"
+                                    r[1].extended_properties["probe_from_object"] = "o"
+                                    seen_by_obj = "probe_from_caller" in r[1].extended_properties
+                                    seen_by_caller = "probe_from_object" in props
+                                    if seen_by_obj != share or seen_by_caller != share:
+                                        ctx.violation(what="extended properties storage " + ("not shared although copy_extended_properties=False" if share else "shared with the caller's mapping although it is to be copied"),
+                                                      cls=cls, mapping=type(props).__name__, observed=f"object sees caller's write: {seen_by_obj}; caller sees object's write: {seen_by_caller}",
+                                                      required="both" if share else "neither")
+                                    for m_ in (props, r[1].extended_properties):
+                                        m_.pop("probe_from_caller", None); m_.pop("probe_from_object", None)
                         # model
                         lines.append("unew"); expect.append("ok")
                         for k, v in base.items():
@@ -254,6 +265,44 @@ def run_ctor(ctx, lines, expect):
                             lines.append(f"uctor 1 {enc_s(key)} {enc_p(u)}"); expect.append("ok" if r[0] == "ok" else "err " + r[1])
                         if r[0] == "ok":
                             lines.append("udict"); expect.append(dict_text(r[1].extended_properties))
+
+
+def run_same_mapping(ctx):
+    """one caller-owned mapping handed to several constructors: every object gets its own copy"""
+    import numpy as np
+    from nitypes.scalar import Scalar
+    from nitypes.vector import Vector
+    from nitypes.xy_data import XYData
+    from nitypes.waveform import AnalogWaveform, Spectrum, DigitalWaveform, ExtendedPropertyDictionary
+    makers = [("Scalar", lambda u, p: Scalar(1.5, u, extended_properties=p), "units"), ("Vector", lambda u, p: Vector([1, 2], u, extended_properties=p), "units"),
+              ("XYData", lambda u, p: XYData(np.zeros(2), np.zeros(2), x_units=u, extended_properties=p), "x_units"),
+              ("AnalogWaveform", lambda u, p: AnalogWaveform(2, extended_properties=p), "units"),
+              ("Spectrum", lambda u, p: Spectrum(2, extended_properties=p), "units"),
+              ("DigitalWaveform", lambda u, p: DigitalWaveform(2, 2, extended_properties=p), "channel_name")]
+    for mapping_kind in ("dict", "epd"):
+        for (n1, m1, a1) in makers:
+            for (n2, m2, a2) in makers:
+                d = {"k": "1"}
+                if mapping_kind == "epd":
+                    d = ExtendedPropertyDictionary(d)
+                snapshot = dict(d)
+                o1 = outcome(m1, "V", d)
+                o2 = outcome(m2, "A", d)
+                ctx.case(("same-mapping", mapping_kind, n1, n2))
+                if o1[0] != "ok" or o2[0] != "ok":
+                    ctx.violation(what="a mapping used for one object made the construction of another fail", first=n1, second=n2, mapping=mapping_kind,
+                                  observed=f"{show(o1)[:80]} / {show(o2)[:80]}", required="two independent objects")
+                    return
+                if dict(d) != snapshot:
+                    ctx.violation(what="a constructor wrote into the caller's mapping", first=n1, second=n2, mapping=mapping_kind, observed=str(dict(d)), required=str(snapshot))
+                    return
+                setattr(o1[1], a1, "changed")
+                if getattr(o2[1], a2) == "changed" and (a1 != a2 or True) and o2[1].extended_properties is not o1[1].extended_properties:
+                    k1 = {"units": "NI_UnitDescription", "x_units": "NI_UnitDescription_X", "channel_name": "NI_ChannelName"}[a1]
+                    if o2[1].extended_properties.get(k1) == "changed":
+                        ctx.violation(what="two objects built from the same mapping share their property storage", first=n1, second=n2, mapping=mapping_kind,
+                                      observed=f"writing {a1} of the first changed the second", required="independent")
+                        return
 
 
 OPS = {"lt": operator.lt, "le": operator.le, "gt": operator.gt, "ge": operator.ge}
@@ -463,6 +512,7 @@ def run(ctx):
         warnings.simplefilter("ignore")     # ComplexWarning from deliberately lossy from_arrays_1d requests
         for part in (run_histories, run_ctor, run_scalar, run_xy):
             part(ctx, lines, expect)
+        run_same_mapping(ctx)
     res = ctx.model(lines)
     if res is not None:
         for q, want, got in zip(lines, expect, res):
